@@ -16,6 +16,24 @@ def run(ctx):
         return
     ctx.regen("all")
     okp, log = ctx.prove("props/C02.v", "C02")
+    # Go-source corpus: nil-checked dereferences next to constructs outside the generator (channel receives, range,
+    # map lookups, type assertions, closures, select, defer, labelled loops), two packages in one process, in both
+    # scheduling modes
+    import os
+    from . import markers
+    from . import wholetool as wt
+    cd = os.path.join(common.VERIF, "corpus", "c02")
+    nm, mbad = markers.check_markers(cd)
+    for seq in (True, False):
+        for _ in range(2):
+            r, err = wt.analyze(cd, seq=seq)
+            if r is None:
+                mbad.append("run failed: %s" % err)
+            elif any(d["file"].endswith("b.go") for d in r["diags"] or []):
+                mbad.append("package b (only nil-checked dereferences) is reported when analysed %s in one process with package a: %s" % ("sequentially" if seq else "in parallel", [(d["file"], d["line"]) for d in r["diags"] if d["file"].endswith("b.go")][:3]))
+    ctx.obligation("whole tool on corpus/c02: %d marked dereferences next to constructs outside the generator (channel receives, range, map lookups, type assertions, closures, select, defer): protected ones never reported, in every scheduling mode" % nm, nm > 0 and not mbad)
+    for b in mbad[:3]:
+        ctx.violation("context", "C02 fails on the real tool: %s\nreplay: bin/harness analyze -dir corpus/c02\n" % b)
     known_ids = set(k["id"] for k in ctx.known_for())
     corpus = PC.c02_cases()
     rc = PF.run_suite(ctx, corpus, nb=4)
